@@ -91,6 +91,57 @@ example :
       fun a b => decide (a ≤ b), 1⟩ : Params Nat Nat Nat) [[5, 7], [7]] = [[(0, 0)], [(0, 1), (1, 0)]] := by
   decide +kernel
 
+/-- **The greedy choice**: the point that is appended has a score that no other free candidate of
+    that line beats (`np.argmax`; for any comparison that is asymmetric and negatively transitive,
+    e.g. `>` on the finite doubles). -/
+theorem link_best (pr : Params P α κ)
+    (asymm : ∀ a b, pr.gt a b = true → pr.gt b a = false)
+    (ntrans : ∀ a b c, pr.gt a b = false → pr.gt b c = false → pr.gt a c = false)
+    (tipF : Nat) (tip : P) (fi : Nat) (frP : List P) (frU : List Bool) (j : Nat) (p : P) (s : α)
+    (h : appendNext pr tipF tip fi frP frU = some (j, p, s)) :
+    ∀ j' p', frP[j']? = some p' → frU.getD j' false = true →
+      ∀ s', pr.score tipF tip fi p' = some s' → pr.gt s' s = false := by
+  intro j' p' hp hu s' hs
+  unfold appendNext at h
+  have := (argmaxFirst_best pr.gt asymm ntrans _ none j p s h).2
+    (j', p', pr.score tipF tip fi p') (by
+      simp only [List.mem_map, Prod.mk.injEq, Prod.exists]
+      exact ⟨j', p', (mem_candidates frP frU j' p').2 ⟨hp, hu⟩, rfl, rfl, rfl⟩) s' hs
+  exact this
+
+/-- a line is not extended on a frame only if **no** free peak of that frame is accepted -/
+theorem link_stops_without_candidate (pr : Params P α κ) (tipF : Nat) (tip : P) (fi : Nat) (frP : List P)
+    (frU : List Bool) (h : appendNext pr tipF tip fi frP frU = none) :
+    ∀ j' p', frP[j']? = some p' → frU.getD j' false = true → pr.score tipF tip fi p' = none := by
+  intro j' p' hp hu
+  unfold appendNext at h
+  exact (argmaxFirst_none pr.gt _ none h).2 (j', p', pr.score tipF tip fi p') (by
+    simp only [List.mem_map, Prod.mk.injEq, Prod.exists]
+    exact ⟨j', p', (mem_candidates frP frU j' p').2 ⟨hp, hu⟩, rfl, rfl, rfl⟩)
+
+example : appendNext (⟨fun _ x _ y => if y < x + 3 then some (10 - (y - x)) else none, fun a b => decide (a > b),
+    fun p _ => p, fun a b => decide (a ≤ b), 1⟩ : Params Nat Nat Nat) 0 5 1 [9, 7, 6, 6, 6] [true, true, false, true, true]
+    = some (3, 6, 9) := by decide
+
+/-- **Start order**: the tracks are returned in the order of their first line, and the tracks that
+    start on the same line in the order of `-amplitude` (brightest first) — for every key order that
+    is transitive and total. -/
+theorem start_order (pr : Params P α κ) (peaks : List (List P))
+    (trans : ∀ a b c, pr.kle a b = true → pr.kle b c = true → pr.kle a c = true)
+    (total : ∀ a b, pr.kle a b = true ∨ pr.kle b a = true) :
+    (link pr peaks).Pairwise (fun t1 t2 => ∃ a b, t1.head? = some a ∧ t2.head? = some b ∧
+      (a.1 < b.1 ∨ (a.1 = b.1 ∧ ∃ p q, peakAt peaks a = some p ∧ peakAt peaks b = some q ∧
+        pr.kle (pr.key p true) (pr.key q true) = true))) := by
+  unfold link
+  rw [List.pairwise_reverse]
+  exact linkFrom_order pr peaks trans total _ _ [] 0 peaks.length List.range_eq_range'
+    List.Pairwise.nil (by simp)
+
+-- three peaks on one line, amplitudes 3, 9, 5 (keys are the negated amplitudes): brightest first
+example : link (⟨fun _ _ _ _ => (none : Option Nat), fun a b => decide (a > b), fun p _ => -p,
+    fun a b => decide (a ≤ b), 1⟩ : Params Int Nat Int) [[3, 9, 5]] = [[(0, 1)], [(0, 2)], [(0, 0)]] := by
+  decide +kernel
+
 /-! ## The cone -/
 
 /-- the executed accept test of `build_score_matrix`, for every number type -/
